@@ -246,7 +246,7 @@ def replay(ctx, case):
 
 def run(ctx):
     q = ctx.tier == "quick"
-    hyp_run(ctx, "projects", project_case(), lambda c: check_project(ctx, c), 120 if q else 1500)
+    hyp_run(ctx, "projects", project_case(), lambda c: check_project(ctx, c), 200 if q else 1500)
     if not q or True:
         # complete walk over the bundled lists: every identifier once, provided without extension and used alone
         cur, dep, exc, excd = V.spdx_lists()
